@@ -166,7 +166,83 @@ def c_recompile(ctx, args):
     return None
 
 
-CHECKS = {'reuse': c_reuse, 'recompile': c_recompile, 'prog_corr': c_prog_corr, 'prog_seq': c_prog_seq, 'gate_corr': c_gate_corr, 'local': c_local}
+def c_copy_extend(ctx, args):
+    """copy a circuit, extend the COPY by further gates (some far from the last layers, so that they slide down the layer chain), then run both:
+    the copy acts as base+extra, the original still as base (oracle: the gates one at a time)"""
+    N, base, extra, l, compiled = args
+    c = NP.build_circuit(N, base, 'CliffordCircuit')
+    c2 = c.copy()
+    for ins in extra:
+        c2.take(NP.mk_gate(ins[1]))
+    if compiled:
+        c.compile()
+        c2.compile()
+    for circ, prog, who in ((c2, base + extra, 'extended copy'), (c, base, 'original after its copy was extended')):
+        o, ref = NP.PL(l), NP.PL(l)
+        circ.forward(o)
+        for ins in prog:
+            NP.mk_gate(ins[1]).forward(ref)
+        if NP.oPL(o) != NP.oPL(ref):
+            return {'kind': 'oracle', 'where': 'np:CliffordCircuit %s (forward%s)' % (who, ', compiled' if compiled else ''), 'observed': NP.oPL(o), 'expected': NP.oPL(ref), 'tags': ['copy_extend']}
+        o, ref = NP.PL(l), NP.PL(l)
+        circ.backward(o)
+        for ins in reversed(prog):
+            NP.mk_gate(ins[1]).backward(ref)
+        if NP.oPL(o) != NP.oPL(ref):
+            return {'kind': 'oracle', 'where': 'np:CliffordCircuit %s (backward%s)' % (who, ', compiled' if compiled else ''), 'observed': NP.oPL(o), 'expected': NP.oPL(ref), 'tags': ['copy_extend']}
+    return None
+
+
+def c_torch_prog(ctx, args):
+    """torchclifford: the layered circuit built by take (variants: as built, copied, composed from two halves, copied-then-extended), uncompiled or compiled,
+    acts as its gates one at a time; oracle = pyclifford gate by gate on the same operand"""
+    N, prog, l, mode, variant, direction = args
+    import vlib.impl_torch as TT
+    N = 1 + max(max(ins[1][0]) for ins in prog)
+    l = [[g[:2 * N], p] for g, p in l]
+    try:
+        if variant == 'halves':
+            h = len(prog) // 2
+            c = TT.build_circuit(N, prog[:h])
+            c.compose(TT.build_circuit(N, prog[h:]))
+        elif variant == 'copy_extend':
+            h = max(1, len(prog) // 2)
+            base = TT.build_circuit(N, prog[:h])
+            c = base.copy()
+            for ins in prog[h:]:
+                c.take(TT.mk_gate(ins[1]))
+        else:
+            c = TT.build_circuit(N, prog)
+            if variant == 'copy':
+                c = c.copy()
+        if mode == 1:
+            for layer in c.layers_forward():
+                layer.compile(c.N)
+        elif mode == 2:
+            c.compile()
+        o = TT.PL(l)
+        (c.forward if direction == 'forward' else c.backward)(o)
+        got = TT.oPL(o)
+    except Exception as e:
+        return {'kind': 'oracle', 'where': 'torch:circuit (%s, mode %d, %s) raised %s' % (variant, mode, direction, type(e).__name__), 'observed': str(e)[:120], 'expected': 'rows', 'tags': ['torch']}
+    ref = NP.PL(l)
+    gates = [NP.mk_gate(ins[1]) for ins in prog]
+    for g in (gates if direction == 'forward' else reversed(gates)):
+        (g.forward if direction == 'forward' else g.backward)(ref)
+    if got != NP.oPL(ref):
+        return {'kind': 'oracle', 'where': 'torch:circuit (%s, mode %d, %s) differs from the gates one at a time' % (variant, mode, direction), 'observed': got, 'expected': NP.oPL(ref), 'tags': ['torch']}
+    if variant == 'copy_extend':
+        o = TT.PL(l)
+        base.forward(o)
+        ref = NP.PL(l)
+        for ins in prog[:h]:
+            NP.mk_gate(ins[1]).forward(ref)
+        if base.N == N and TT.oPL(o) != NP.oPL(ref):
+            return {'kind': 'oracle', 'where': 'torch:the original circuit changed when its copy was extended', 'observed': TT.oPL(o), 'expected': NP.oPL(ref), 'tags': ['torch', 'copy_extend']}
+    return None
+
+
+CHECKS = {'torch_prog': c_torch_prog, 'copy_extend': c_copy_extend, 'reuse': c_reuse, 'recompile': c_recompile, 'prog_corr': c_prog_corr, 'prog_seq': c_prog_seq, 'gate_corr': c_gate_corr, 'local': c_local}
 
 
 def run(ctx):
@@ -210,3 +286,14 @@ def run(ctx):
                nontrivial=('rc', it))
         ctx.res.count('layers_%d' % min(nlayers, 6))
         ctx.res.count('mode%d_%s_%s' % (mode, cls, variant))
+    # copy, then extend the copy with gates of which some are far from the last layers (they slide down the chain of layer links)
+    for it in range(int(60 * B)):
+        N = rng.randint(3, 6)
+        base = rprog(rng, ctx.model, N, rng.randint(2, 5))
+        extra = rprog(rng, ctx.model, N, rng.randint(1, 3))
+        do(ctx, 'copy_extend', [N, base, extra, gen.rplist(rng, N, 3), rng.random() < 0.4], nontrivial=('ce', it))
+    # the torch port's circuit classes
+    for it in range(int(80 * B)):
+        N = rng.randint(1, 5)
+        prog = rprog(rng, ctx.model, N, rng.randint(1, 7))
+        do(ctx, 'torch_prog', [N, prog, gen.rplist(rng, N, 3), rng.choice([0, 0, 1, 2]), rng.choice(['orig', 'copy', 'halves', 'copy_extend']), rng.choice(['forward', 'backward'])], nontrivial=('tp', it))
